@@ -524,6 +524,8 @@ def worlds_wf(ctx, rep, cases, tag):
 def diff(case, impl, model):
     """first disagreement between implementation and model, or None"""
     has1 = any(case["progs"])
+    if impl.get("finished") is False and any(case["progs"]):
+        return None     # the schedule ended before every thread finished (generator artefact): not compared, counted by the caller
     if any(e >= 100 for e in case["sched"]) or 996 in (impl["yields"] or []):
         # forced releases / a thread that really went to sleep on a lock in the OS (only the reloadable cell's lock, held by a reloader
         # parked at yield 83): it wakes by itself as soon as the lock is freed and runs on to its next yield point -- a writer thereby
